@@ -207,7 +207,7 @@ package router
 // flight), with a private copy of the question; nothing on this path blocks or contacts the upstream.
 //@ func (r *router) asyncSingleFlightPrefetch(q *dnsmsg.Question, remoteAddr netip.Addr, u *upstreamWrapper)
 //@   props C19 C20
-//@   requires r != nil && q != nil && r.cache != nil && r.prefetch != nil && r.prefetch.queue != nil && u != nil && r.cache.logger != nil && (r.cache.memory == nil || memOK(r.cache.memory)) && (r.cache.ipMarker == nil || markerOK(r.cache.ipMarker)) && r.logger != nil && r.prefetchTotal != nil && r.ctx != nil
+//@   requires r != nil && q != nil && r.cache != nil && r.prefetch != nil && r.prefetch.queue != nil && u != nil && r.cache.logger != nil && (r.cache.memory == nil || memOK(r.cache.memory)) && (r.cache.ipMarker == nil || markerOK(r.cache.ipMarker)) && (r.cache.redis == nil || redisOK(r.cache.redis)) && r.logger != nil && r.prefetchTotal != nil && r.ctx != nil
 //@   ghost nGo int = 0
 //@   ghost nRes int = 0
 //@   ghost okRes bool = false
@@ -243,7 +243,7 @@ package router
 // aged by the whole seconds since it was stored; an undecodable entry is a miss.
 //@ func (c *cacheCtl) Get(ctx context.Context, q *dnsmsg.Question, rc *RequestContext) (m *dnsmsg.Msg, storedTime time.Time, expireTime time.Time)
 //@   props C07 C08
-//@   requires c != nil && q != nil && rc != nil && c.logger != nil && (c.memory == nil || memOK(c.memory)) && (c.ipMarker == nil || markerOK(c.ipMarker))
+//@   requires c != nil && q != nil && rc != nil && c.logger != nil && (c.memory == nil || memOK(c.memory)) && (c.ipMarker == nil || markerOK(c.ipMarker)) && (c.redis == nil || redisOK(c.redis))
 //@   ghost gmark string = ""
 //@   ghost gkey pool.Buffer = nil
 //@   ghost gm *dnsmsg.Msg = nil
@@ -289,7 +289,7 @@ package router
 //@     invariant forallkey(k, labelIndexes, has(labelIndexes, k) ==> 0 <= labelIndexes[k] && labelIndexes[k] < len(labels))
 //@ func (c *cacheCtl) ipMark(addr netip.Addr) (mark string)
 //@   props C07
-//@   requires c != nil && (c.ipMarker == nil || markerOK(c.ipMarker))
+//@   requires c != nil && (c.ipMarker == nil || markerOK(c.ipMarker)) && (c.redis == nil || redisOK(c.redis))
 //@   modifies nothing
 //@   ensures [C07:no-ranges-no-group] c.ipMarker == nil || addr.z == netip.z0 ==> len(mark) == 0
 //@   ensures [C07:label-of-the-containing-range] c.ipMarker != nil && addr.z != netip.z0 ==> forall(k, 0, len(c.ipMarker.l.e), inRange(c.ipMarker.l, k, ipv6Of(addr)) ==> mark == c.ipMarker.s[c.ipMarker.l.e[k].v])
@@ -305,7 +305,7 @@ package router
 
 //@ func (c *cacheCtl) Store(q *dnsmsg.Question, clientAddr netip.Addr, resp *dnsmsg.Msg)
 //@   props C08
-//@   requires c != nil && q != nil && (resp == nil || (wfMsg(resp) && smallMsg(resp))) && c.logger != nil && (c.ipMarker == nil || markerOK(c.ipMarker))
+//@   requires c != nil && q != nil && (resp == nil || (wfMsg(resp) && smallMsg(resp))) && c.logger != nil && (c.ipMarker == nil || markerOK(c.ipMarker)) && (c.redis == nil || redisOK(c.redis))
 //@   modifies nothing
 //@   callsite Store: [C08:never-truncated] resp != nil && !resp.Truncated
 //@   callsite Store: [C08:negative-flag] arg5 == (resp.RCode != 0)
@@ -369,7 +369,7 @@ package router
 
 //@ func (r *router) handleReq(ctx context.Context, q *dnsmsg.Question, rc *RequestContext)
 //@   props C03 C10 C12 C01 C19
-//@   requires r != nil && q != nil && rc != nil && r.cache != nil && r.cache.logger != nil && (r.cache.memory == nil || memOK(r.cache.memory)) && (r.cache.ipMarker == nil || markerOK(r.cache.ipMarker)) && forall(k, 0, len(r.rules), r.rules[k] != nil)
+//@   requires r != nil && q != nil && rc != nil && r.cache != nil && r.cache.logger != nil && (r.cache.memory == nil || memOK(r.cache.memory)) && (r.cache.ipMarker == nil || markerOK(r.cache.ipMarker)) && (r.cache.redis == nil || redisOK(r.cache.redis)) && forall(k, 0, len(r.rules), r.rules[k] != nil)
 //@   requires r.queryCacheHitTotal != nil && r.prefetch != nil && r.prefetch.queue != nil && r.logger != nil && r.prefetchTotal != nil && r.ctx != nil && limOK(r.limiter)
 //@   modifies rc.Response.Msg, rc.Response.RuleIdx, rc.Response.Cached, rc.Response.IpMark, obj(r.prefetch.queue), field(limiter.e), field(time.Time)
 //@   ensures rc.Response.Msg != nil && fresh(rc.Response.Msg) && wfMsg(rc.Response.Msg)
@@ -415,7 +415,7 @@ package router
 
 //@ func (r *router) handleReqMsg(ctx context.Context, m *dnsmsg.Msg, rc *RequestContext)
 //@   props C03 C10 C12 C01
-//@   requires r != nil && m != nil && rc != nil && wfMsg(m) && r.cache != nil && r.cache.logger != nil && (r.cache.memory == nil || memOK(r.cache.memory)) && (r.cache.ipMarker == nil || markerOK(r.cache.ipMarker)) && forall(k, 0, len(r.rules), r.rules[k] != nil)
+//@   requires r != nil && m != nil && rc != nil && wfMsg(m) && r.cache != nil && r.cache.logger != nil && (r.cache.memory == nil || memOK(r.cache.memory)) && (r.cache.ipMarker == nil || markerOK(r.cache.ipMarker)) && (r.cache.redis == nil || redisOK(r.cache.redis)) && forall(k, 0, len(r.rules), r.rules[k] != nil)
 //@   requires r.queryCacheHitTotal != nil && r.logger != nil && r.prefetch != nil && r.prefetch.queue != nil && r.prefetchTotal != nil && r.ctx != nil && limOK(r.limiter)
 //@   modifies rc.Response.Msg, rc.Response.RuleIdx, rc.Response.Cached, rc.Response.IpMark, obj(r.prefetch.queue), field(limiter.e), field(time.Time)
 //@   ensures rc.Response.Msg != nil && wfMsg(rc.Response.Msg)
@@ -478,7 +478,7 @@ package router
 
 //@ func (r *router) handleServerReq(m *dnsmsg.Msg, rc *RequestContext)
 //@   props C03 C01
-//@   requires r != nil && m != nil && rc != nil && wfMsg(m) && r.cache != nil && r.cache.logger != nil && (r.cache.memory == nil || memOK(r.cache.memory)) && (r.cache.ipMarker == nil || markerOK(r.cache.ipMarker)) && forall(k, 0, len(r.rules), r.rules[k] != nil)
+//@   requires r != nil && m != nil && rc != nil && wfMsg(m) && r.cache != nil && r.cache.logger != nil && (r.cache.memory == nil || memOK(r.cache.memory)) && (r.cache.ipMarker == nil || markerOK(r.cache.ipMarker)) && (r.cache.redis == nil || redisOK(r.cache.redis)) && forall(k, 0, len(r.rules), r.rules[k] != nil)
 //@   requires r.queryCacheHitTotal != nil && r.logger != nil && r.queryTotal != nil && r.prefetch != nil && r.prefetch.queue != nil && r.prefetchTotal != nil && r.ctx != nil && limOK(r.limiter)
 //@   modifies rc.Response.Msg, rc.Response.RuleIdx, rc.Response.Cached, rc.Response.IpMark, obj(r.prefetch.queue), field(limiter.e), field(time.Time)
 //@   ensures [C03:always-a-response] rc.Response.Msg != nil && wfMsg(rc.Response.Msg)
@@ -488,7 +488,7 @@ package router
 
 // ---- listeners: one response write per handled request ------------------------------------------------
 
-//@ spec func routerReady(r *router) bool = r != nil && r.cache != nil && r.cache.logger != nil && (r.cache.memory == nil || memOK(r.cache.memory)) && (r.cache.ipMarker == nil || markerOK(r.cache.ipMarker)) && forall(k, 0, len(r.rules), r.rules[k] != nil) && r.queryCacheHitTotal != nil && r.logger != nil && r.queryTotal != nil && r.prefetch != nil && r.prefetch.queue != nil && r.prefetchTotal != nil && r.ctx != nil && limOK(r.limiter)
+//@ spec func routerReady(r *router) bool = r != nil && r.cache != nil && r.cache.logger != nil && (r.cache.memory == nil || memOK(r.cache.memory)) && (r.cache.ipMarker == nil || markerOK(r.cache.ipMarker)) && (r.cache.redis == nil || redisOK(r.cache.redis)) && forall(k, 0, len(r.rules), r.rules[k] != nil) && r.queryCacheHitTotal != nil && r.logger != nil && r.queryTotal != nil && r.prefetch != nil && r.prefetch.queue != nil && r.prefetchTotal != nil && r.ctx != nil && limOK(r.limiter)
 // the payload size the client advertised: class of the last OPT record of the query, at least 512
 //@ spec func lastOPTAt(m *dnsmsg.Msg, k int) bool = 0 <= k && k < len(m.Additionals) && isOPT(m.Additionals[k]) && forall(j, k+1, len(m.Additionals), !isOPT(m.Additionals[j]))
 
@@ -560,7 +560,7 @@ package router
 // the refresh goroutine: releases its private question and the reservation exactly once, on every path
 //@ closure router.asyncSingleFlightPrefetch$1
 //@   props C19 C20
-//@   requires r != nil && r.prefetch != nil && r.prefetch.queue != nil && qCopy != nil && u != nil && r.cache != nil && r.cache.logger != nil && (r.cache.memory == nil || memOK(r.cache.memory)) && (r.cache.ipMarker == nil || markerOK(r.cache.ipMarker)) && r.logger != nil && r.prefetchTotal != nil && r.ctx != nil
+//@   requires r != nil && r.prefetch != nil && r.prefetch.queue != nil && qCopy != nil && u != nil && r.cache != nil && r.cache.logger != nil && (r.cache.memory == nil || memOK(r.cache.memory)) && (r.cache.ipMarker == nil || markerOK(r.cache.ipMarker)) && (r.cache.redis == nil || redisOK(r.cache.redis)) && r.logger != nil && r.prefetchTotal != nil && r.ctx != nil
 //@   ghost nDone int = 0
 //@   ghost nRel int = 0
 //@   oncall done: nDone = nDone + 1
@@ -573,7 +573,7 @@ package router
 
 //@ func (r *router) doPrefetch(q *dnsmsg.Question, remoteAddr netip.Addr, u *upstreamWrapper)
 //@   props C19 C08
-//@   requires r != nil && q != nil && u != nil && r.cache != nil && r.cache.logger != nil && (r.cache.memory == nil || memOK(r.cache.memory)) && (r.cache.ipMarker == nil || markerOK(r.cache.ipMarker)) && r.logger != nil && r.prefetchTotal != nil && r.ctx != nil
+//@   requires r != nil && q != nil && u != nil && r.cache != nil && r.cache.logger != nil && (r.cache.memory == nil || memOK(r.cache.memory)) && (r.cache.ipMarker == nil || markerOK(r.cache.ipMarker)) && (r.cache.redis == nil || redisOK(r.cache.redis)) && r.logger != nil && r.prefetchTotal != nil && r.ctx != nil
 //@   ghost nStore int = 0
 //@   ghost fwdErr error = nil
 //@   aftercall forward: fwdErr = ret1
@@ -698,7 +698,7 @@ package router
 //@   aftercall NewRedisCache?: gRedis = ret0
 //@   oncall Close?: nClose = nClose + 1
 //@   modifies nothing
-//@   ensures err == nil ==> c != nil && c.logger != nil && (c.memory == nil || memOK(c.memory)) && (c.ipMarker == nil || markerOK(c.ipMarker))
+//@   ensures err == nil ==> c != nil && c.logger != nil && (c.memory == nil || memOK(c.memory)) && (c.ipMarker == nil || markerOK(c.ipMarker)) && (c.redis == nil || redisOK(c.redis))
 //@   ensures err != nil ==> c == nil
 //@   ensures [C18:failed-init-releases-what-it-started] err != nil && (gMem != nil || gRedis != nil) ==> nClose == 1
 //@   ensures [C18:nothing-closed-on-success] err == nil ==> nClose == 0
